@@ -218,8 +218,22 @@ func (r *Result) Sample(v any) {
 
 // AddFinding writes a replay file and records the finding (at most 20 kept).
 func (r *Result) AddFinding(kind, signature, what string, replay any) {
+	replaceAt := -1
 	if len(r.Findings) >= 20 {
-		return
+		// the list is full: a violation (the property's own oracle failed on a concrete input) is never
+		// dropped in favour of model-vs-code disagreements — it takes the place of the last one
+		if kind != "violation" {
+			return
+		}
+		for i := len(r.Findings) - 1; i >= 0; i-- {
+			if r.Findings[i].Kind != "violation" {
+				replaceAt = i
+				break
+			}
+		}
+		if replaceAt < 0 {
+			return
+		}
 	}
 	os.MkdirAll(r.outDir, 0o755)
 	b, _ := json.MarshalIndent(map[string]any{"property": r.id, "kind": kind, "signature": signature, "what": what,
@@ -227,6 +241,10 @@ func (r *Result) AddFinding(kind, signature, what string, replay any) {
 	h := sha256.Sum256(b)
 	p := filepath.Join(r.outDir, fmt.Sprintf("%s-%d-%s.json", r.id, r.seed, hex.EncodeToString(h[:4])))
 	os.WriteFile(p, b, 0o644)
+	if replaceAt >= 0 {
+		r.Findings[replaceAt] = Finding{Kind: kind, Signature: signature, What: what, Replay: p}
+		return
+	}
 	r.Findings = append(r.Findings, Finding{Kind: kind, Signature: signature, What: what, Replay: p})
 }
 
